@@ -4,8 +4,9 @@ CONSTANTS
   KF = {}
   RecSet = {"4:a", "6:b", "k:c"}
   Modes = {"min_max", "accept_any", "ignore_any", "ignore_on_failure"}
+  IvSet = {"bad", "iv1"}
   MaxBuf = 3
-  MaxNow = 3700
+  MaxNow = 4700
   D = 0
 CONSTRAINT Bound
 INVARIANTS I_NoMonitorFails I_C05 I_C07 I_C07b I_C17
